@@ -228,21 +228,29 @@ def sweep_modes(r, sc, sweep, record):
                 plans.append({"kind": "crash", "key": key, "k": k, "image": image})
     sites = []
     seen = set()
+    # which start of the daemon a process belongs to (order of first appearance of its pid in the trace)
+    inc_of = {}
+    for e in ev:
+        if e["key"] == "send.qmail-send" and e["pid"] not in inc_of:
+            inc_of[e["pid"]] = len(inc_of) + 1
     for cls, k, e in sandbox.fault_sites(ev):
         if not e["key"].startswith(("send.", "clean.")):
             continue
+        inc = inc_of.get(e["pid"], 1) if e["key"] == "send.qmail-send" else 1
+        if inc > 1 and not sweep.get("restarts"):
+            continue              # faults in a restarted daemon only where the sweep asks for them
         if cls in ("pwrite", "close", "chdir", "lseek", "pipe", "fork", "flock", "read") and not (cls == "read" and e["key"].endswith("qmail-send")):
             continue
         if cls == "malloc" and not (sweep.get("malloc") and e["key"].endswith("qmail-send")):
             continue
-        if (e["key"], cls, k) in seen:
+        if (e["key"], cls, k, inc) in seen:
             continue
-        seen.add((e["key"], cls, k))
+        seen.add((e["key"], cls, k, inc))
         errs = {"open": [errno.ENFILE, errno.EACCES], "write": [errno.ENOSPC, "short"], "fsync": [errno.EIO], "unlink": [errno.EIO], "stat": [errno.EIO],
                 "fstat": [errno.EIO], "link": [errno.EIO], "utimes": [errno.EIO], "read": [errno.EIO], "opendir": [errno.ENFILE], "readdir": [errno.EIO],
                 "ftruncate": [errno.EIO], "malloc": [errno.ENOMEM]}.get(cls, [])
         for er in errs:
-            sites.append({"kind": "fault", "key": e["key"], "cls": cls, "k": k, "err": str(er)})
+            sites.append(dict({"kind": "fault", "key": e["key"], "cls": cls, "k": k, "err": str(er)}, **({"inc": inc} if inc > 1 else {})))
     if sweep.get("fault_classes"):
         # only faults of these classes, only in the daemon itself (e.g. C15: a failing read-only open at the start of a pass)
         sites = [x for x in sites if x["cls"] in sweep["fault_classes"] and x["key"].endswith("qmail-send")]
